@@ -124,3 +124,79 @@ def dim_size(rng, small=3):
     if r < 0.93:
         return rng.choice([4, 5, 7, 8, 9, 10, 11, 14, 15, 16, 17])
     return rng.choice([31, 32, 33, 64, 65])
+
+
+# ---------------------------------------------------------------- caller-owned slices
+
+_INT_ARG = {'full': 1, 'zeros': 1, 'ones': 1, 'randu': 1, 'randn': 1, 'reshape': 1, 'broadcast': 1, 'at': 1}
+_RNG_ARG = {'slice': 1, 'patch': 1}
+_TEN_ARG = {'concat': 0}
+
+def own_slices(q, rng, prob=1.0):
+    """Rewrite program `q` so that the literal int lists / range lists / tensor lists it passes to the library become
+    caller-owned Go slices which the caller overwrites straight after the call (the very same slice is passed, see
+    PROTOCOL.md); every tensor bound so far is observed again at the end and after each back-propagation. A library that
+    keeps a reference to a caller's slice (instead of copying it) then shows a changed shape / index / operand list."""
+    p = Prog(q.name + '_own', **q.opts)
+    p.tags = set(q.tags) | {'caller-owned-slices'}
+    k = [0]
+    bound = []
+    def var(kind, lit):
+        k[0] += 1
+        name = '%sv%d' % (kind[0], k[0])
+        p.add('%s = %s %s' % (name, kind, lit))
+        return name
+    for ln in q.lines:
+        toks = ln.split(' ')
+        has_dst = len(toks) > 2 and toks[1] == '='
+        cmd = toks[2] if has_dst else toks[0]
+        args = toks[3:] if has_dst else toks[1:]
+        after = []
+        def literal_ok(a):
+            return a not in ('-', 'nil') and not a.startswith('$')
+        if rng.random() < prob:
+            if cmd in _INT_ARG and len(args) > _INT_ARG[cmd] and literal_ok(args[_INT_ARG[cmd]]):
+                # `at` has no <conf>; constructors have <conf> first, methods have the tensor first: position 1 in all
+                pos = _INT_ARG[cmd] if cmd != 'at' else 1
+                lit = args[pos]
+                try:
+                    vals = [int(v) for v in lit.split(',')]
+                except ValueError:
+                    vals = None
+                if vals:
+                    v = var('ints', lit)
+                    args = list(args); args[pos] = '$' + v
+                    j = rng.randrange(len(vals))
+                    after.append('setint %s %d %d' % (v, j, vals[j] + rng.choice([1, 2, -1])))
+            elif cmd in _RNG_ARG and len(args) > 1 and literal_ok(args[1]) and ':' in args[1]:
+                lit = args[1]
+                prs = lit.split(',')
+                v = var('ranges', lit)
+                args = list(args); args[1] = '$' + v
+                j = rng.randrange(len(prs))
+                a, b = prs[j].split(':')
+                try:
+                    a, b = int(a), int(b)
+                    after.append('setrange %s %d %d:%d' % (v, j, a + 1, b + 1) if rng.random() < 0.5 else 'setrange %s %d 0:1' % (v, j))
+                except ValueError:
+                    pass
+            elif cmd in _TEN_ARG and args and literal_ok(args[0]):
+                lit = args[0]
+                names = lit.split(',')
+                v = var('tensors', lit)
+                args = list(args); args[0] = '$' + v
+                j = rng.randrange(len(names))
+                others = [b for b in bound if b != names[j]]
+                after.append('settensor %s %d %s' % (v, j, rng.choice(others + ['nil']) if others and rng.random() < 0.7 else 'nil'))
+        p.add(((toks[0] + ' = ') if has_dst else '') + ' '.join([cmd] + list(args)))
+        for a in after:
+            p.add(a)
+        if has_dst and cmd not in ('ints', 'ranges', 'tensors', 'data', 'init', 'fc', 'input', 'relu', 'sigmoid', 'leaky', 'softmax',
+                                   'mse', 'bce', 'ce', 'accuracy', 'sgd', 'weight', 'shape', 'grad') and not (cmd == 'tanh' and not args):
+            if toks[0] not in bound: bound.append(toks[0])
+        if after or cmd == 'bp':
+            for b in bound[-6:]:
+                p.add('obs %s' % b)
+    for b in bound[-10:]:
+        p.add('obs %s' % b)
+    return p
